@@ -393,7 +393,7 @@ func runProgram(r *hk.Run, e *env, rng *hk.Rand, p []op, label string) {
 		}
 	}
 	key := strings.Join(progStrings(p), ";")
-	r.Add(hk.Case{Coq: "[" + strings.Join(coqSteps, ";\n   ") + "]",
+	r.Add(hk.Case{Coq: "(CProg [" + strings.Join(coqSteps, ";\n   ") + "])",
 		Desc: map[string]interface{}{"kind": "program", "label": label, "program": progStrings(p), "observations": obs}},
 		key, clones > 0 && afterClone > 0)
 }
